@@ -5,7 +5,7 @@
    Send (managed / explicit) | CSend | CTake | Deliver (final / non final / unknown id) | Event | Recv | Tick | Close. *)
 From Coq Require Import ZArith List Bool Permutation.
 From Coq Require Import Relations.
-From GCNP Require Import model.Inflight proofs.Inflight proofs.InflightInv proofs.InflightC09 proofs.InflightSched proofs.InflightRefine.
+From GCNP Require Import model.Inflight proofs.Inflight proofs.InflightInv proofs.InflightC09 proofs.InflightC10 proofs.InflightReuse proofs.InflightSched proofs.InflightRefine.
 Import ListNotations.
 Open Scope Z_scope.
 
@@ -86,6 +86,31 @@ Proof. exact explicit_reuse_refused. Qed.
 Print Assumptions C09_explicit_reuse_refused.
 Example C09_explicit_reuse_refused_ex : In 5 (keys (inflight (run (init 3 2 100) [SendExplicit 5]))) /\ 5 <> 0.
 Proof. split; [vm_compute; auto|discriminate]. Qed.
+
+(* ---- the same over a whole history: from the moment a request is registered under k until its final frame arrives (or
+        the handler is closed), WHATEVER happens in between - its read timeout fires (Tick), it is closed for too many
+        pending pages, pages are read, other requests come and go - that request stays registered under k and an explicit
+        send with id k is refused without changing anything. "Unanswered" includes "done but unanswered". *)
+Theorem C09_reuse_refused_until_answered :
+  forall s ops k r, Inv s -> k <> 0 -> In (k, r) (inflight s) -> Forall (fun o => ~ removes o k) ops ->
+    (exists r', In (k, r') (inflight (run s ops)) /\ same_id r r') /\
+    exists e, step (run s ops) (SendExplicit k) = (run s ops, ORefused e) /\ (e = EInUse \/ e = ETooMany).
+Proof. exact reuse_refused_until_answered. Qed.
+Print Assumptions C09_reuse_refused_until_answered.
+(* non-vacuity, and the history of the seeded change C10-a: request 7 times out (Tick), then overflows nothing, is never
+   answered; the second explicit send of 7 is refused with "in use" and the timed-out request is still the entry *)
+Example C09_reuse_refused_until_answered_ex :
+  let s := run (init 3 2 100) [SendExplicit 7] in
+  let ops := [Tick 1000; SendManaged; Deliver 7 false 1; Recv 7] in
+  Inv s /\ Forall (fun o => ~ removes o 7) ops /\
+  (exists r, In (7, r) (inflight s) /\ exists r', lookup 7 (inflight (run s ops)) = Some r' /\ done r' = true /\ err r' = Some ETimeout) /\
+  snd (step (run s ops) (SendExplicit 7)) = ORefused EInUse.
+Proof.
+  cbn zeta. split; [apply run_inv, init_inv; discriminate|].
+  split; [repeat constructor; intros [[tag H]|H]; discriminate|].
+  split; [eexists; split; [vm_compute; left; reflexivity|eexists; vm_compute; repeat split; reflexivity]|].
+  vm_compute. reflexivity.
+Qed.
 
 (* ---- conservation, for mixed managed / explicit histories (full strength; F9 was repaired by a04ca4e) *)
 Theorem C09_conservation :
